@@ -1028,7 +1028,9 @@ def parse(
                 conn.close()
 
                 logger.warning("Model cache database is corrupt, recreating...")
-                os.remove(full_db_path)
+                # Another caller may have found and removed it at the same time
+                with contextlib.suppress(FileNotFoundError):
+                    os.remove(full_db_path)
 
                 conn = sqlite3.connect(full_db_path, isolation_level=None)
                 cursor = conn.cursor()
